@@ -51,6 +51,7 @@ def run(ctx, prog):
         own_reg = regs[scalar]
         writers = {'_master_map': set(), '_master_pointer': set()}
         outside = {'_master_map': [], '_master_pointer': []}
+        outside_fns = {}
         n_api = 0
         for f in prog.functions:
             if not (f.q.startswith('MASA::') and not f.get('rec') and f.scalar == scalar):
@@ -72,6 +73,7 @@ def run(ctx, prog):
                             via = [q for q in stk if q.split('::')[-1] in ALLOWED_WRITERS[fld] and q.startswith(rq + '::')]
                             if not via:
                                 outside[fld].append('%s at %s%s' % (f.n, ev.trace.writes[pth][0], (' (in %s)' % stk[-1].split('::')[-1]) if stk else ''))
+                                outside_fns[(f.q, f.sig)] = f
             if not touched:
                 continue
             n_api += 1
@@ -79,6 +81,28 @@ def run(ctx, prog):
             ctx.ob('C12.H4', '%s|%s' % (f.n, f.sig), not wrong, f.where, '%s<%s> operates on the registry %s' % (f.n, scalar, [w.split('::')[-1] for w in wrong]),
                    sample='%s -> %s' % (f.n, own_reg.split('::')[-1]), nontrivial=not f.n.startswith('masa_eval_'))
         ctx.floor('api_functions_using_registry<%s>' % scalar, n_api, 100)
+        # an entry point that changes the registry elsewhere is accepted if every path follows the removal protocol: the entry
+        # found under a checked key is erased, its object deleted, the selection pointer not left on the deleted object
+        undecided_out = []
+        if outside_fns:
+            remaining = {'_master_map': [], '_master_pointer': []}
+            for (q_, sg_), f_ in sorted(outside_fns.items()):
+                probs_, rec_ = [], True
+                for rp in own.removal_paths(prog, f_, scalar):
+                    pr_, lk_, ok_ = own.check_removal(rp)
+                    rec_ = rec_ and ok_
+                    probs_ += pr_
+                if not rec_:
+                    undecided_out.append(f_.n)
+                elif probs_:
+                    for fld in remaining:
+                        remaining[fld] += ['%s: %s' % (f_.n, x) for x in sorted(set(probs_))[:2]]
+                ctx.ob('C12.H1', 'removal|%s|%s' % (f_.n, sc), (not probs_) if rec_ else None, f_.where,
+                       '%s: %s' % (f_.n, '; '.join(sorted(set(probs_))[:2])) if rec_ else '%s changes the registry outside init_mms / select_mms in a way the removal rule does not recognise: not decided' % f_.n,
+                       sample='%s: erases a found entry, deletes its object, never leaves the selection on it' % f_.n)
+            outside = {k_: ([x for x in v_ if x.split(' at ')[0] in undecided_out] + remaining[k_]) for k_, v_ in outside.items()}
+            if undecided_out and not any(remaining.values()):
+                outside = {'_master_map': [], '_master_pointer': []}
         okm = not outside['_master_map']
         okp = not outside['_master_pointer']
         ctx.ob('C12.H1', 'map-writers|' + sc, okm and 'masa_init' in writers['_master_map'], prog.records[rq]['l'],
